@@ -367,7 +367,7 @@ func widthFor(t *rapid.T, cfg TreeCfg) int {
 func GenListV(t *rapid.T, cfg TreeCfg, depth int) V {
 	if cfg.LongLists && oneIn(t, 40, "longlist") {
 		// a long list of cheap scalars: lengths around powers of two and multiples of small block sizes
-		n := []int{60, 63, 64, 65, 66, 67, 96, 100, 127, 128, 129, 130}[drawIdx(t, 12, "longn")]
+		n := []int{60, 63, 64, 65, 66, 67, 96, 100, 127, 128, 129, 130, 255, 256, 257, 258, 259}[drawIdx(t, 17, "longn")]
 		out := V{K: KList, L: make([]V, 0, n)}
 		for i := 0; i < n; i++ {
 			switch drawInt(t, 0, 3, "lk") {
